@@ -90,6 +90,9 @@ func routeInputs() []inputStmt {
 		{"form-file", "fh, _ := c.FormFile(\"upload\")\n\t_ = fh", func(r *Route) { r.FormFile = "upload" }},
 		{"form-json", "var pl Payload\n\t_ = FormValueJSON(c, \"payload\", &pl)", func(r *Route) { r.JSONField = &RouteParam{"payload", "Payload"} }},
 		{"form-json-shared-type", "var pl2 In\n\t_ = FormValueJSON(c, \"payload2\", &pl2)", func(r *Route) { r.JSONField = &RouteParam{"payload2", "In"} }},
+		// the destination is a variable that already is a pointer
+		{"form-json-pointer-var", "pl3 := new(Payload)\n\t_ = FormValueJSON(c, \"payload3\", pl3)", func(r *Route) { r.JSONField = &RouteParam{"payload3", "Payload"} }},
+		{"form-json-pointer-slice", "var ids3 *[]int64\n\t_ = FormValueJSON(c, \"ids3\", ids3)", func(r *Route) { r.JSONField = &RouteParam{"ids3", "[]int64"} }},
 	}
 }
 
@@ -142,7 +145,7 @@ func Routes(c explore.Chooser) *prog.Program {
 	prefix := s.Pick("prefix", "", "/api", "/zzz", "/api/it", "/inner", "/api/inner", "/api/pkg/sub", "/inner/e")
 	regSite := s.Pick("registration", "in-func", "in-method", "two-funcs", "nested-block", "one-param-returning-error")
 	sameLine := s.Pick("same-line-literals", "no", "yes")
-	shadow := s.Pick("shadowed-const", "no", "local-shadows-package-const", "two-locals-same-name")
+	shadow := s.Pick("shadowed-const", "no", "local-shadows-package-const", "two-locals-same-name", "two-locals-own-handlers")
 
 	// de-duplicate statements using the same variables (same statement chosen twice)
 	seen := map[string]bool{}
@@ -276,6 +279,13 @@ func Routes(c explore.Chooser) *prog.Program {
 		extraRoutes = []Route{
 			{Verb: "DELETE", URL: "/api/one", Handler: "create", Input: "In", Return: "Out", Pkg: "main"},
 			{Verb: "PUT", URL: "/zone/two", Handler: "create", Input: "In", Return: "Out", Pkg: "main"},
+		}
+	case "two-locals-own-handlers":
+		// the same expression text in two functions, each with its own handler (no body, distinct method names)
+		a.WriteString("\nfunc shadowOne(c echo.Context) error {\n\tvar n int\n\treturn c.JSON(200, n)\n}\n\nfunc shadowTwo(c echo.Context) error {\n\tvar s string\n\treturn c.JSON(200, s)\n}\n\nfunc routesOwnOne(e *echo.Echo) {\n\tconst base = \"/api/own/one\"\n\te.GET(base+\"/x\", shadowOne)\n}\n\nfunc routesOwnTwo(e *echo.Echo) {\n\tconst base = \"/zone/own/two\"\n\te.GET(base+\"/x\", shadowTwo)\n}\n")
+		extraRoutes = []Route{
+			{Verb: "GET", URL: "/api/own/one/x", Handler: "shadowOne", Return: "int", Pkg: "main"},
+			{Verb: "GET", URL: "/zone/own/two/x", Handler: "shadowTwo", Return: "string", Pkg: "main"},
 		}
 	}
 	routes = append(routes, extraRoutes...)
